@@ -1135,6 +1135,33 @@ def _r14d(chk, repo) -> None:
     chk.floor("R14d.comment_scans", 1)
 
 
+def _r14f(chk, repo) -> None:
+    f = repo.fn("src/sqlfluff/utils/reflow/elements.py", "ReflowPoint.respace_point")
+    cfg = cfg_of(f)
+    dc = [c for c in ast.walk(f) if isinstance(c, ast.Call) and last_attr(c) == "determine_constraints"]
+    if len(dc) != 1:
+        raise AnalysisError("R14f: respace_point no longer calls determine_constraints exactly once; re-confirm the anchor by hand")
+    n = 0
+    for c in [c for c in ast.walk(f) if isinstance(c, ast.Call) and last_attr(c) == "process_spacing"]:
+        a = kwarg(c, "strip_newlines") or (c.args[1] if len(c.args) > 1 else None)
+        if a is None:
+            chk.fail("R14f", c, "process_spacing is called without the stripping switch decided by determine_constraints", detail="respace_point: stripping switch from determine_constraints")
+            continue
+        n += 1
+        ok = False
+        if isinstance(a, ast.Name):
+            os_ = origins(cfg, a, cfg.stmt_of(c))
+            ok = bool(os_) and all(o.kind == "expr" and o.expr is dc[0] and tuple(o.path) == (2,) for o in os_)
+        chk.require(
+            ok, "R14f", c,
+            f"the stripping switch handed to process_spacing (`{short(a, 40)}`) is not exactly the third component of determine_constraints(...): that function has already combined the caller's "
+            "request with the comment veto, so anything OR-ed in afterwards strips the newline after a `--` comment and glues the next keyword onto it",
+            detail="respace_point: stripping switch is determine_constraints' verdict",
+        )
+    chk.count("R14f.process_spacing_calls", n)
+    chk.floor("R14f.process_spacing_calls", 1)
+
+
 def _r14e(chk, repo) -> None:
     from ..idioms import conditions_at
 
@@ -1178,6 +1205,8 @@ def run(chk) -> None:
     chk.rule("R14e", "LT12's backward scan for trailing newlines ends at the first segment that is not whitespace / a meta / the end-of-file marker -- in particular at a comment: the conditions of its `break` are only negated is_whitespace / is_meta / is_type(..) tests")
     _r14d(chk, repo)
     _r14e(chk, repo)
+    chk.rule("R14f", "the comment veto of determine_constraints is final: in ReflowPoint.respace_point the newline-stripping switch handed to process_spacing (and read afterwards) is the third component of determine_constraints' result and nothing else -- the caller's request has already been folded in there")
+    _r14f(chk, repo)
     mods = [m for s in SCOPES for m in repo.iter_modules(s)]
     pv = Prover(repo, mods)
     used: Dict[Tuple[str, str], int] = {}
@@ -1391,6 +1420,18 @@ LT = "src/sqlfluff/rules/layout/"
 RF = "src/sqlfluff/utils/reflow/"
 
 VARIANTS: List[Variant] = [
+    Variant(
+        "caller-request-ored-back-over-the-comment-veto", "src/sqlfluff/utils/reflow/elements.py",
+        "        pre_constraint, post_constraint, strip_newlines = determine_constraints(\n            prev_block, next_block, strip_newlines\n        )\n",
+        "        pre_constraint, post_constraint, inline_constraint = determine_constraints(\n            prev_block, next_block, strip_newlines\n        )\n        strip_newlines = strip_newlines or inline_constraint\n",
+        "R14f", "respace_point", "seeded C14-7",
+    ),
+    Variant(
+        "quiet-constraints-result-kept-whole", "src/sqlfluff/utils/reflow/elements.py",
+        "        pre_constraint, post_constraint, strip_newlines = determine_constraints(\n            prev_block, next_block, strip_newlines\n        )\n",
+        "        constraints = determine_constraints(prev_block, next_block, strip_newlines)\n        pre_constraint, post_constraint, strip_newlines = constraints\n",
+        "QUIET", None, "R14f: the result through a local before it is unpacked",
+    ),
     Variant(
         "lt09-gate-only-for-inline-comments", "src/sqlfluff/rules/layout/LT09.py",
         "        if select_targets_info.comment_after_select_idx != -1:\n",
